@@ -59,6 +59,9 @@ func (cmt *HashCommitDecommit) Verify() bool {
 		return false
 	}
 	hash := common.SHA512_256i(D...)
+	if hash == nil {
+		return false
+	}
 	return hash.Cmp(C) == 0
 }
 
